@@ -138,7 +138,8 @@ type Cfg struct {
 	Items []int  `json:"items"` // items per input channel
 	Cap   int    `json:"cap"`   // capacity of the input channels
 	Fail  []int  `json:"fail"`  // do: error code returned by function i (0 = nil)
-	Rv    bool   `json:"rv"`    // do: the functions rendezvous with each other
+	Rv    bool   `json:"rv"`    // do: star: f0 receives one token from every later function
+	Ring  bool   `json:"ring"`  // do: ring: f0 sends to f1 ... f(n-1) sends back to f0 (f0 waits for the LAST function)
 }
 
 // ID is a stable name of the configuration.
@@ -150,6 +151,9 @@ func (c Cfg) ID() string {
 	s += fmt.Sprintf(" items=%v cap=%d", c.Items, c.Cap)
 	if c.Comb == "do" {
 		s = fmt.Sprintf("do fail=%v rv=%v", c.Fail, c.Rv)
+		if c.Ring {
+			s += " ring"
+		}
 	}
 	return s
 }
